@@ -7,7 +7,7 @@
      variant "dpp" (one probe, given as an index) or "mdpp" (probe indicator),
      avail0 = the cells whose bit is set in the action_mask GIVEN to reset
               (generator format: neither keep-out nor probe),
-     envK   = the quota the environment OBJECT works with (see QuotaOfEnv).
+     envK   = the quota the environment OBJECT works with (see QuotaOfEnv; = K).
    Only the selection discipline is specified.  The reward (impedance
    suppression, a matrix inversion over measured PDN data) has no independent
    oracle here: Objective = 0 and the adapter reports reward 0.
@@ -68,11 +68,13 @@ Mask(inst, s) == s.avail
 Step(inst, s, a) == [avail |-> s.avail \ {a}, keepout |-> s.keepout, i |-> s.i + 1]
 
 \* DPPEnv._step: done = td["i"] >= self.max_decaps - 1 (counter before the increment).
-\* QUIRK QuotaOfEnv: self.max_decaps is copied from the generator in DPPEnv.__init__.
-\* MDPPEnv.__init__ calls DPPEnv.__init__ WITHOUT its generator, so the copy (and size,
-\* raw_pdn, decap, freq) comes from a throw-away default DPPGenerator() (max_decaps = 20,
-\* default data files) and is never refreshed from the MDPPGenerator actually used:
-\* envK = 20 whatever generator_params says.  For DPP envK = K.
+\* QuotaOfEnv: self.max_decaps is copied from the generator in DPPEnv.__init__; MDPPEnv
+\* copies it again from its own MDPPGenerator (fix "MDPP environment uses the quota and chip
+\* data of its own generator"), so envK = K for both.  FORMER behaviour of MDPP:
+\* MDPPEnv.__init__ calls DPPEnv.__init__ WITHOUT its generator, the copy (and size, raw_pdn,
+\* decap, freq) came from a throw-away default DPPGenerator() (max_decaps = 20, default data
+\* files) and was never refreshed: envK = 20 whatever generator_params said.  envK is read
+\* from the environment object by the adapter; the monitors of PART 1 use K.
 Done(inst, s) == s.i >= 1 /\ s.i >= inst.envK
 
 RewardM(inst, s, hist) == 0
